@@ -10,10 +10,13 @@ PROP = dict(
                        "Comdex.C09.panic_reachable_if_counter_gt_length", "Comdex.C09.pass_follows_abstract_sweep",
                        "Comdex.C09.sweep_live_partial", "Comdex.C09.two_sweeps_if_one_shift",
                        "Comdex.C09.two_sweeps_counterexample", "Comdex.C09.unsafe_processed_is_seized",
-                       "Comdex.C09.v2_borrow_pass_clobbers_vault_offset", "Comdex.C09.v2_vault_starved_counterexample",
-                       "Comdex.C09.v2_repaired_witness_seized", "Comdex.C09.v2_borrow_sweep_leak_counterexample",
+                       "Comdex.C09.v2_vault_offset_independent_of_borrow_pass", "Comdex.C09.v2_witness_seized",
+                       "Comdex.C09.borrow_step_atomic", "Comdex.C09.failing_step_leaves_no_writes",
+                       "Comdex.C09.flagged_borrow_is_backed", "Comdex.C09.v2_borrow_witness_atomic",
                        "Comdex.C09.seize_moves_exactly_collateral", "Comdex.C09.seize_opens_one_auction"],
     harness_tests=["TestC09"],
+    monitors=["safe_never_seized", "slice_bounds", "seized_within_bound", "seized_within_two_sweeps", "seized_late_after_divergence",
+              "gen1_app3_offset_collision", "seize_exact_collateral", "one_auction", "store_order"],
     trusted_base=[KERNEL_TB, HARNESS_TB, DEC_TB,
                   "Model/Liquidation.lean is hand-written from x/liquidation (liquidate_vaults.go, msg_server.go, liquidate_borrow.go "
                   "offset bookkeeping, types/liquidations.go), x/liquidationsV2 (liquidate.go, offset.go, msg_server.go), "
@@ -47,9 +50,10 @@ META = dict(
          "roundings never move an exactly safe ratio to the failing side; GetSliceStartEndForLiquidations stays within [0,len] for all "
          "arguments and the slice panics exactly when the independent counter exceeds the list; a sweep hands position i to the step "
          "within i/batch blocks of its start if nothing before it is deleted, two sweeps suffice under one shift; the unrestricted "
-         "two-sweeps claim is refuted (D9 schedule) and generation 2 as it is never examines vaults beyond the borrow sweep's end "
-         "(offset key collision); a processed unsafe position is seized under the property's enabling conditions; seizure moves exactly "
+         "two-sweeps claim is refuted (D9 schedule, replayed on the real code: known finding); the generation-2 vault offset is "
+         "independent of the borrow pass and every flagged borrow is backed by a locked vault and an auction (fixes 16be2e4, c15713f); "
+         "a processed unsafe position is seized under the property's enabling conditions; seizure moves exactly "
          "amountIn into auction custody and opens exactly one auction.",
-    note="Liveness is partial by necessity (the stated bound is false of the code); both refutations are replayed on the real code on "
-         "every run. Trusted: Lean kernel, hand-written model as far as the correspondence exercises it, Dec model (differentially tested).",
+    note="Liveness is partial by necessity (the stated two-sweeps bound is false of the code); the refutation is replayed on the real code on "
+         "every run and reported under the monitor name seized_within_two_sweeps. Trusted: Lean kernel, hand-written model as far as the correspondence exercises it, Dec model (differentially tested).",
 )
